@@ -113,8 +113,8 @@ impl Tracked {
         }
     }
     fn write(&self, f: &mut fmt::Formatter<'_>, mode: u8) -> fmt::Result {
-        // one payload in sixteen uses CRLF line ends (the '\r' belongs to the line before)
-        let sep = if (self.val >> 9) & 15 == 15 { "\r\n" } else { "\n" };
+        // one payload in eight uses CRLF line ends (the '\r' belongs to the line before)
+        let sep = if (self.val >> 9) & 7 == 7 { "\r\n" } else { "\n" };
         let text = tracked_lines(self.val, mode).join(sep);
         match frag() {
             1 => {
